@@ -169,6 +169,7 @@ func init() {
 		ruleMemberLoops(inPkgs("simplify."), 5, 0),
 		ruleNoWrite("simplifier configuration", simplifierEntries, 20, 20),
 		ruleAreaFlag,
+		ruleVertexProvenance,
 		ruleCompactionIndex(inPkgs("simplify."), 4),
 	)
 
